@@ -1,0 +1,63 @@
+//go:build verif
+// +build verif
+
+package messages
+
+// Contracts for the deductive verifier in /verif (comment-only file, build tag `verif`).
+
+// ---- C15: consuming the log -----------------------------------------------------------------------------------------------------
+// The consumer callback: every call is counted with its offset, and so is every call that succeeded.
+//@ assume-call (*store).Consume$2.f(off uint64, p *packet.Publish) (err error)
+//@   ensures #hCalls == old(#hCalls) + 1 && #lastHandedOff == off
+//@   ensures err == nil ==> #okN == old(#okN) + 1 && #lastOkOff == off
+//@   ensures err != nil ==> #okN == old(#okN) && #lastOkOff == old(#lastOkOff)
+// (the callback cannot reach the local variables of Consume, which only this closure captures, nor the mapped state file)
+//@   modifies *, except(heap(E_byte)), except(heap(C_gommap_MMap)), except(heap(C_uint64)), except(heap(C_Pmessages_store)), except(allfields(*store)), newrows(bytes), #hCalls, #lastHandedOff, #okN, #lastOkOff
+
+//@ trusted func mustDecode(b []byte) (p *packet.Publish)
+//@   ensures p != nil && fresh(p)
+//@   modifies newobjs(packet.Publish), newobjs(packet.Header), newrows(bytes)
+
+// Truncation never reaches a message that has not been handed over: segments are only dropped below (offset - 300), and only
+// for an offset whose message has been handed over successfully (call sites below).
+//@ func (commitlog.CommitLog).TruncateBefore(l commitlog.CommitLog, offset uint64) (err error)
+//@   ensures #truncations == old(#truncations) + 1 && #lastTruncateArg == offset
+//@   modifies #truncations, #lastTruncateArg
+//@ func (*store).maybeTruncate(currentOffset uint64)
+//@   requires s != nil && s.log != nil
+//@   ensures #truncations == old(#truncations) || (#truncations == old(#truncations) + 1 && #lastTruncateArg + 300 == currentOffset)
+//@   modifies #truncations, #lastTruncateArg
+
+// One batch of records. For every record, in order: the callback is called with the record's offset (first offset of the batch
+// plus its index); only after the callback returned nil is the state file written, with that record's offset; a failing callback
+// stops the batch and nothing is written for that record. So at every point the state file holds the offset of the last record
+// whose callback returned nil, and at most one record (the one being processed) lies beyond it.
+//@ func (*store).Consume$2(c context.Context, b stream.Batch) (err error)
+//@   requires s != nil && s.log != nil && len(stateOffset) >= 8 && b.FirstOffset + len(b.Records) < 9223372036854775807
+//@   ensures err == nil ==> #hCalls == old(#hCalls) + len(b.Records) && #okN == old(#okN) + len(b.Records)
+//@   ensures err == nil && len(b.Records) > 0 ==> #lastOkOff == b.FirstOffset + len(b.Records) - 1 && u64of(string(stateOffset[:8])) == #lastOkOff
+//@   ensures err != nil ==> #okN < old(#okN) + len(b.Records) && #hCalls == #okN - old(#okN) + old(#hCalls) + 1 && #lastHandedOff == b.FirstOffset + (#okN - old(#okN))
+//@   ensures err != nil && #okN > old(#okN) ==> u64of(string(stateOffset[:8])) == #lastOkOff && #lastOkOff + 1 == #lastHandedOff
+//@   ensures #okN == old(#okN) ==> u64of(string(stateOffset[:8])) == old(u64of(string(stateOffset[:8])))
+// C15 (what the property asks of a restart): Consume resumes AT the stored position (stream.FromOffset is inclusive), so the
+// stored position has to be the first record NOT yet handed over successfully
+//@   ensures [C15] err == nil && len(b.Records) > 0 ==> u64of(string(stateOffset[:8])) == #lastOkOff + 1
+//@ loop (*store).Consume$2#1
+//@   invariant s != nil && s.log != nil && len(stateOffset) >= 8 && -1 <= rangeindex && rangeindex < len(b.Records)
+//@   invariant #hCalls == old(#hCalls) + rangeindex + 1 && #okN == old(#okN) + rangeindex + 1
+//@   invariant rangeindex >= 0 ==> #lastOkOff == b.FirstOffset + rangeindex && #lastHandedOff == #lastOkOff && u64of(string(stateOffset[:8])) == #lastOkOff
+//@   invariant rangeindex == -1 ==> u64of(string(stateOffset[:8])) == old(u64of(string(stateOffset[:8])))
+// the position is persisted, and segments are dropped, only for the record whose callback has just returned nil
+//@ callsite (*store).Consume$2 -> (encoding/binary.bigEndian).PutUint64(e binary.bigEndian, b []byte, v uint64)
+//@   requires v == #lastOkOff && #lastHandedOff == #lastOkOff
+//@ callsite (*store).Consume$2 -> (*store).maybeTruncate(currentOffset uint64)
+//@   requires currentOffset == #lastOkOff
+
+// Consume resumes at the position read from the state file (nothing else decides where reading starts)
+//@ callsite (*store).Consume -> github.com/vx-labs/commitlog/stream.FromOffset(o int64)
+//@   requires o == u64of(string(stateOffset[:8]))
+//@ trusted func github.com/tysontate/gommap.Map(fd uintptr, prot gommap.ProtFlags, flags gommap.MapFlags) (m gommap.MMap, err error)
+//@   ensures err == nil ==> len(m) >= 8
+//@   modifies newrows(bytes)
+//@ func (*store).Consume(ctx context.Context, consumerName string, f func(uint64, *packet.Publish) error) (err error)
+//@   requires s != nil && s.log != nil
